@@ -935,14 +935,6 @@ pub fn check_auth_one_default_rule_accepts() {
     let o = converse(&sc);
     witness!(o.chosen[0] == (NR - 1) as u32, "accepted_by_default_rule");
 }
-/// thorough: converse for an own-type rule and a contract creation with constructor
-#[kani::proof]
-#[kani::unwind(98)]
-pub fn check_auth_one_own_rule_accepts() {
-    let sc = scenario_shaped(&shape(0, 1), [CREATE_CTOR, CREATE_CTOR], 1, 2, 2, 2);
-    let o = converse(&sc);
-    witness!(o.chosen[0] == (NR - 1) as u32, "accepted_by_own_type_rule");
-}
 /// thorough: the whole check over two listed rules (own type + Default), <= 1 policy each
 #[kani::proof]
 #[kani::unwind(98)]
@@ -953,23 +945,134 @@ pub fn check_auth_own_and_default_rule() {
     witness!(o.fell_through[0], "earlier_candidate_failed_first");
     witness!(o.skipped_expired[0], "expired_earlier_candidate_skipped");
 }
-/// thorough: a batch of 2 contexts (a contract call and a contract creation: different rule types, own id list
-/// each) over one Default rule with <= 1 signer and <= 1 policy, <= 1 signature. (Two contract calls with
-/// possibly equal contracts, or two signers / signatures, exhaust 12 GB.)
-#[kani::proof]
-#[kani::unwind(98)]
-pub fn check_auth_2ctx_one_default_rule() {
-    let sc = scenario_shaped(&shape(0, 2), [CALL, CREATE], 2, 1, 1, 1);
-    run(&sc, false);
-    let o = reference(&sc, false);
-    prop!(o.verify_trace, "C03.check_auth.each_external_signature_sent_to_its_verifier_exactly");
-    prop!(o.verified, "C03.check_auth.every_verifier_answered_true");
-    prop!(o.delegated, "C03.check_auth.delegated_signers_authorized_the_payload");
-    prop!(o.query_trace, "C03.check_auth.rules_tried_in_precedence_order_with_exactly_the_rule_signers_supplied");
-    prop!(o.covered, "C03.check_auth.every_context_covered_by_a_live_satisfied_rule");
-    prop!(o.enforce_trace && o.complete, "C03.check_auth.enforce_exactly_once_per_policy_of_the_chosen_rule");
-    let f = facts(&sc, &o);
-    witness!(f.pol == 1, "policy_enforced_once_per_context");
-    witness!(f.kind == 2 && f.pol == 0 && f.sig == 1, "signer_rule_covers_both_contexts");
-    end_checks(DECLARED_2);
+// (a batch of 2 contexts through the un-stubbed `do_check_auth` exhausts 12 GB even with one rule, one signer and one
+// policy: see `glue::check_auth_glue_2ctx` below)
+
+// ------------------------------------------------------------------------------------------ glue (stubbed selection)
+/// `do_check_auth` with `get_validated_context` REPLACED (`#[kani::stub]`, profile sa_glue, `-Z stubbing`) by a
+/// recorder that returns a harness-chosen (rule, context, signers) per call: the composition itself - authenticate
+/// first, one selection per context in batch order with the supplied signers, then `enforce` once per policy of
+/// every selected rule with exactly the selected (context, signers, rule) - for batches of 2 contexts, independent
+/// of the registry (no storage is touched). Together with `select_*` (what the real selection returns) this is
+/// the whole-check claim for batches, which the un-stubbed harnesses cannot reach (12 GB).
+#[cfg(feature = "saglue")]
+pub mod glue {
+    use super::*;
+
+    pub struct Rec {
+        pub n: u32,
+        pub ctx_ok: [bool; 2],
+        pub keys_ok: [bool; 2],
+        pub calls_before: [u32; 2],
+        pub exp_ctx: [Option<Context>; 2],
+        pub exp_keys: Option<Vec<Signer>>,
+        pub ret_rule: [Option<ContextRule>; 2],
+        pub ret_signers: [Option<Vec<Signer>>; 2],
+    }
+    pub static mut REC: Rec = Rec {
+        n: 0,
+        ctx_ok: [false; 2],
+        keys_ok: [false; 2],
+        calls_before: [0; 2],
+        exp_ctx: [None, None],
+        exp_keys: None,
+        ret_rule: [None, None],
+        ret_signers: [None, None],
+    };
+
+    #[allow(static_mut_refs)]
+    pub fn recorder(_e: &Env, context: &Context, all_signers: &Vec<Signer>) -> (ContextRule, Context, Vec<Signer>) {
+        let r = unsafe { &mut REC };
+        let i = r.n as usize;
+        if i >= 2 {
+            model::overflow()
+        }
+        r.n += 1;
+        r.ctx_ok[i] = match &r.exp_ctx[i] {
+            Some(c) => *c == *context,
+            None => false,
+        };
+        r.keys_ok[i] = match &r.exp_keys {
+            Some(k) => *k == *all_signers,
+            None => false,
+        };
+        r.calls_before[i] = model::n_calls();
+        match (&r.ret_rule[i], &r.ret_signers[i]) {
+            (Some(rule), Some(s)) => (rule.clone(), context.clone(), s.clone()),
+            _ => model::overflow(),
+        }
+    }
+    fn arb_rule() -> ContextRule {
+        ContextRule {
+            id: kani::any(),
+            // opaque to the composition; the 32-byte-hash variant only enlarges the SAT instance
+            context_type: if kani::any() { ContextRuleType::Default } else { ContextRuleType::CallContract(Address::arb()) },
+            name: arb_name(),
+            signers: arb_signers(1),
+            policies: arb_policies(2),
+            valid_until: Option::<u32>::arb(),
+        }
+    }
+
+    #[kani::proof]
+    #[kani::unwind(98)]
+    #[kani::stub(stellar_accounts::smart_account::get_validated_context, crate::smart_account::glue::recorder)]
+    #[allow(static_mut_refs)]
+    pub fn check_auth_glue_2ctx() {
+        // the registry is irrelevant (selection is stubbed): nothing listed, nothing read
+        let sc = scenario_shaped(&shape(0, 0), [CALL, CALL], 2, 1, 1, 1);
+        let n_ctx: usize = 2;
+        let rules = [arb_rule(), arb_rule()];
+        let sel = [arb_signers(1), arb_signers(1)];
+        let r = unsafe { &mut REC };
+        r.exp_ctx = [Some(sc.ctx[0].clone()), Some(sc.ctx[1].clone())];
+        r.exp_keys = Some(sc.keys.clone());
+        r.ret_rule = [Some(rules[0].clone()), Some(rules[1].clone())];
+        r.ret_signers = [Some(sel[0].clone()), Some(sel[1].clone())];
+        let mut cx = Vec::new(&Env);
+        cx.push_back(sc.ctx[0].clone());
+        if n_ctx == 2 {
+            cx.push_back(sc.ctx[1].clone());
+        }
+        let e = Env::default();
+
+        let res = do_check_auth(&e, &sc.payload, &signatures(&sc), &cx);
+        kani::assume(res.is_ok());
+
+        let o = reference_phases(&sc, false, P_VERIFY);
+        prop!(o.verify_trace && o.verified && o.delegated, "C03.check_auth.glue.authenticates_every_signature");
+        let mut sel_ok = r.n == n_ctx as u32;
+        let mut c = 0;
+        while c < n_ctx {
+            sel_ok &= r.ctx_ok[c] && r.keys_ok[c];
+            c += 1;
+        }
+        prop!(sel_ok, "C03.check_auth.glue.selects_each_context_once_in_order_with_the_supplied_signers");
+        prop!(r.calls_before[0] == o.n_ext && (n_ctx == 1 || r.calls_before[1] == o.n_ext), "C03.check_auth.glue.authenticates_before_selecting_and_enforces_after_all_selections");
+        // enforce: per context in order, per policy in order, with exactly the selected tuple
+        let mut p = o.n_ext;
+        let mut trace = true;
+        let mut c = 0;
+        while c < n_ctx {
+            let mut a = ArgBuf::new();
+            a.push(&if c == 0 { sc.ctx[0].clone() } else { sc.ctx[1].clone() });
+            a.push(&sel[c]);
+            a.push(&rules[c]);
+            a.push(&sc.account);
+            let mut q = 0;
+            while q < CAP {
+                if let Some(pol) = rules[c].policies.get(q as u32) {
+                    trace &= call_is(p, &pol, F_ENFORCE, &a);
+                    p += 1;
+                }
+                q += 1;
+            }
+            c += 1;
+        }
+        prop!(trace && p == model::n_calls(), "C03.check_auth.glue.enforce_exactly_once_per_policy_of_each_selected_rule");
+        witness!(rules[0].policies.len() == 2 && rules[1].policies.len() == 2, "two_contexts_two_policies_each");
+        witness!(rules[0].policies.len() == 0 && rules[1].policies.len() == 1, "only_the_second_context_enforces");
+        witness!(o.n_ext == 1, "external_signer");
+        end_checks(DECLARED_2);
+    }
 }
